@@ -618,3 +618,50 @@ def _fill_history(spec, model):
         if r['name'] == spec['name']:
             return {'confirmed': not r['ok'], 'observed': r['detail'], 'expected': 'the outcome on a freshly built isotherm'}
     return {'confirmed': False, 'error': 'case not found'}
+
+
+def backendless_adsorbate_cases():
+    """an isotherm of a user-defined adsorbate without a thermodynamic backend (its physical values are in its properties): every
+    unit / mode / basis query gives the outcome of a first call on a freshly built pair after every other query and when repeated
+    (with an adsorbate whose backend name cannot be constructed as a second variant)"""
+    import pygaps
+    pygaps.logger.disabled = True
+    props = dict(molar_mass=58.1, liquid_molar_density=0.0103, gas_molar_density=4.1e-5, liquid_density=0.6, gas_density=0.0024, saturation_pressure=101325,
+                 surface_tension=20.0, enthalpy_liquefaction=25.0)
+    queries = {
+        'loading(volume_liquid cm3)': lambda i: i.loading(loading_basis='volume_liquid', loading_unit='cm3'),
+        'loading_at(0.5, volume_gas cm3)': lambda i: i.loading_at(0.5, loading_basis='volume_gas', loading_unit='cm3'),
+        'loading(mass g)': lambda i: i.loading(loading_basis='mass', loading_unit='g'),
+        'pressure(relative)': lambda i: i.pressure(pressure_mode='relative'),
+        'pressure_at(2.0 mmol -> kPa)': lambda i: i.pressure_at(2.0, pressure_unit='kPa'),
+        'loading(percent)': lambda i: i.loading(loading_basis='percent'),
+        'spreading_pressure_at(0.5)': lambda i: i.spreading_pressure_at(0.5),
+    }
+    for variant, extra in (('no_backend_name', {}), ('backend_name_that_cannot_be_built', {'backend_name': 'PGV_NOT_A_FLUID'})):
+        def fresh():
+            pygaps.ADSORBATE_LIST[:] = [a for a in pygaps.ADSORBATE_LIST if a.name != 'pgv_vapour']
+            pygaps.Adsorbate('pgv_vapour', store=True, **props, **extra)
+            return pygaps.PointIsotherm(pressure=[0.1, 0.2, 0.4, 0.6, 0.8], loading=[1.0, 1.8, 2.9, 3.5, 3.8], material='pgv_c04', adsorbate='pgv_vapour',
+                                        temperature=273.0, pressure_mode='absolute', pressure_unit='bar', loading_basis='molar', loading_unit='mmol',
+                                        material_basis='mass', material_unit='g', temperature_unit='K')
+        try:
+            for qn, q in queries.items():
+                first = _run(q, fresh())
+                probs = []
+                for hn, h in queries.items():
+                    iso = fresh()
+                    _run(h, iso)
+                    later = _run(q, iso)
+                    if not _eq(first, later):
+                        probs.append(f"after {hn}: {later if later[0] == 'raise' else 'another value'}; as a first call: {first if first[0] == 'raise' else 'a value'}")
+                yield {'name': f"backendless_adsorbate|{variant}|{qn}", 'ok': not probs, 'detail': '; '.join(probs[:2])[:300]}
+        finally:
+            pygaps.ADSORBATE_LIST[:] = [a for a in pygaps.ADSORBATE_LIST if a.name != 'pgv_vapour']
+
+
+@replayer('c04.backendless')
+def _backendless(spec, model):
+    for r in backendless_adsorbate_cases():
+        if r['name'] == spec['name']:
+            return {'confirmed': not r['ok'], 'observed': r['detail'], 'expected': 'the outcome of a first call on a freshly built isotherm and adsorbate'}
+    return {'confirmed': False, 'error': 'case not found'}
